@@ -134,7 +134,10 @@ def hint_write_nodes(ctx: Ctx, f: FunctionInfo) -> List[Node]:
 
 
 def hint_writers(ctx: Ctx) -> List[FunctionInfo]:
-    out = [f for f in ctx.prog.functions.values() if hint_write_nodes(ctx, f)]
+    """Functions whose CFG contains a write of the version hint.  A helper introduced later that is analysed in place (its
+    write appears in its callers' CFGs) is represented by those callers, not by itself."""
+    out = [f for f in ctx.prog.functions.values() if hint_write_nodes(ctx, f)
+           and not (ctx.prog.is_transparent(f) and owner_tops(ctx, f))]
     return out
 
 
